@@ -91,6 +91,11 @@ def _inputs(sig, D, sp, rng, structured):
 
     xs = [("generic", mlh.make_input(sig, D, sp, rng, integer=False)) for _ in range(3)]
     for name in structured:
+        if name.startswith("amp"):
+            # generic input of small amplitude: the stabilising eps is then comparable to the statistics it regularises
+            a = float(name[3:])
+            xs.append(("generic", {kp: (a * b).astype(np.float32) for kp, b in mlh.make_input(sig, D, sp, rng, integer=False).items()}))
+            continue
         blocks = {}
         for kp, c in sig:
             shape = (c,) + tuple(sp) + (D,) * kp[0]
@@ -189,9 +194,7 @@ def run_case(case, seed):
         else:
             layer = ml.LayerNorm(mlh.sig_tuple(sig), D)
         layer = mlh.perturb_model(layer, rng, 0.4)
-        structured = ["zero", "constant"] if eps > 0 else []
-        if all(kp[0] == 0 for kp, _ in sig) and eps > 0:
-            structured.append("onehot")
+        structured = ["zero", "constant", "onehot", "amp1e-2", "amp1e-3"] if eps > 0 else ["amp1e-2"]
         run_layer(layer, sig, structured, fpbase=f"norm/groups={'1' if case.get('groups', 1) == 1 else 'n'}")
     elif blk == "VN":
         sig = _sig(case["sig"], case["c"])
@@ -209,6 +212,13 @@ def run_case(case, seed):
         k, p_ = case["k"], case["patch"]
         shape = sp + (D,) * k
         for par in (0, 1):
+
+            def declared(img, par=par):
+                """class-level entry points: the result must DECLARE the operand's type (k, parity), D and carry its data"""
+                if (img.k, img.parity, img.D) != (k, par, D):
+                    bad(f"C08/{blk}/declared-type", f"{blk} of a (k={k}, parity={par}) image declares (k,p)={(img.k, img.parity)}")
+                return np.asarray(img.data)
+
             for trial in range(3):
                 if blk == "max_pool":
                     a = rng.normal(size=shape).astype(np.float32)
@@ -220,7 +230,7 @@ def run_case(case, seed):
                     elif case["variant"] == "comparator":
                         f = lambda arr, cmp_, fl: np.asarray(geom.max_pool(D, jnp.asarray(arr), p_, False, jnp.asarray(cmp_)))
                     else:
-                        f = lambda arr, cmp_, fl: np.asarray(geom.GeometricImage(jnp.asarray(arr), par, D, fl).max_pool(p_, use_norm=False).data)
+                        f = lambda arr, cmp_, fl: declared(geom.GeometricImage(jnp.asarray(arr), par, D, fl).max_pool(p_, use_norm=False))
                         if par == 1:
                             continue  # plain max of a pseudoscalar is not reflection-equivariant (max != -min): outside the property
                     tol = 1e-6
@@ -231,14 +241,14 @@ def run_case(case, seed):
                     if entry == 0:
                         f = lambda arr, cmp_, fl: np.asarray(geom.average_pool(D, jnp.asarray(arr), p_))
                     elif entry == 1:
-                        f = lambda arr, cmp_, fl: np.asarray(geom.GeometricImage(jnp.asarray(arr), par, D, fl).average_pool(p_).data)
+                        f = lambda arr, cmp_, fl: declared(geom.GeometricImage(jnp.asarray(arr), par, D, fl).average_pool(p_))
                     else:
                         f = lambda arr, cmp_, fl: np.asarray(geom.MultiImage({(k, par): jnp.asarray(arr)[None, None]}, D, fl).average_pool(p_)[(k, par)])[0, 0]
                     tol = 0.0 if p_ == 2 else 1e-6
                 else:  # unpool
                     a = rng.integers(-4, 5, size=shape).astype(np.float32)
                     comp = None
-                    f = lambda arr, cmp_, fl: np.asarray(geom.GeometricImage(jnp.asarray(arr), par, D, fl).unpool(p_).data)
+                    f = lambda arr, cmp_, fl: declared(geom.GeometricImage(jnp.asarray(arr), par, D, fl).unpool(p_))
                     tol = 0.0
                 from vlib.ref.action import ref_action, perm_axes
 
